@@ -20,6 +20,7 @@ import (
 	"math/rand"
 	"os"
 	"runtime"
+	"sort"
 	"strconv"
 	"strings"
 	"sync"
@@ -130,10 +131,12 @@ type factKey struct {
 	B    int    `json:"b"` // C01: concurrency    C05: queue limit    C11: 1 = Shutdown has begun              C16: variant installed at that moment
 }
 
-var qlimit = map[string]int{"a": 3, "b": 1, "c": -1, "r": 3, "f": 3}
+var qlimit = map[string]int{"a": 3, "b": 1, "c": -1, "r": 3, "f": 3, "d": 4}
+
+const delayD = 10 * time.Millisecond
 
 func defs(variant int) *definition.PipelinesDef {
-	three, one := 3, 1
+	three, one, four := 3, 1, 4
 	return &definition.PipelinesDef{Pipelines: map[string]definition.PipelineDef{
 		"a": {Concurrency: 2, QueueLimit: &three, RetentionCount: 4, SourcePath: "x", Env: map[string]string{"V": strconv.Itoa(variant)},
 			Tasks: map[string]definition.TaskDef{"t1": {Script: []string{"x"}}, "t2": {Script: []string{"y"}, DependsOn: []string{"t1"}}}},
@@ -141,6 +144,9 @@ func defs(variant int) *definition.PipelinesDef {
 			Tasks: map[string]definition.TaskDef{"t": {Script: []string{"x"}}}},
 		"c": {Concurrency: 1, SourcePath: "x", RetentionPeriod: 300 * time.Millisecond,
 			Tasks: map[string]definition.TaskDef{"t": {Script: []string{"x"}}, "u": {Script: []string{"x"}}}},
+		// a start delay with a queue (append): bursts of requests whose timers expire at almost the same moment
+		"d": {Concurrency: 1, QueueLimit: &four, StartDelay: delayD, SourcePath: "x",
+			Tasks: map[string]definition.TaskDef{"t": {Script: []string{"x"}}}},
 		// a task that fails while its sibling goes on (no fail-fast): the job must end with that error
 		"f": {Concurrency: 2, QueueLimit: &three, SourcePath: "x", ContinueRunningTasksAfterFailure: true,
 			Tasks: map[string]definition.TaskDef{"bad": {Script: []string{"x"}}, "good": {Script: []string{"x"}}}},
@@ -149,7 +155,7 @@ func defs(variant int) *definition.PipelinesDef {
 	}}
 }
 
-var conc = map[string]int{"a": 2, "b": 1, "c": 1, "r": 2, "f": 2}
+var conc = map[string]int{"a": 2, "b": 1, "c": 1, "r": 2, "f": 2, "d": 1}
 
 func TestConcurrentClients(t *testing.T) {
 	outLock, outSnap := os.Getenv("VERIF_ROWS_LOCK"), os.Getenv("VERIF_ROWS_LOCK_SNAP")
@@ -262,7 +268,7 @@ func TestConcurrentClients(t *testing.T) {
 		mu.Lock()
 		seq, shutdownSeq, curVariant = 0, 0, 0
 		mu.Unlock()
-		var ids sync.Map
+		var ids, acceptSeq sync.Map
 		var wg sync.WaitGroup
 		stop := time.Now().Add(dur)
 		// in every second round Shutdown begins while the clients are still active
@@ -291,6 +297,24 @@ func TestConcurrentClients(t *testing.T) {
 			}()
 		}
 		nclients := 8
+		// bursts of requests for the delayed pipeline: their timers expire within microseconds of each other and the
+		// callbacks race for the runner's lock
+		wg.Add(1)
+		go func() {
+			defer wg.Done()
+			me := gid()
+			for time.Now().Before(stop) {
+				for k := 0; k < 3; k++ {
+					if j, err := pr.ScheduleAsync("d", prunner.ScheduleOpts{}); err == nil {
+						mu.Lock()
+						ls := lastSched[me]
+						mu.Unlock()
+						acceptSeq.Store(j.ID, ls[0])
+					}
+				}
+				time.Sleep(25 * time.Millisecond)
+			}
+		}()
 		// a slow reader: holds the read lock for 2 ms out of every 6 (the callbacks of running jobs queue up behind it)
 		wg.Add(1)
 		go func() {
@@ -316,7 +340,7 @@ func TestConcurrentClients(t *testing.T) {
 				for time.Now().Before(stop) {
 					switch k := rnd.Intn(100); {
 					case k < 35:
-						p := []string{"a", "a", "b", "c", "r", "f"}[rnd.Intn(6)]
+						p := []string{"a", "a", "b", "c", "r", "f", "d", "d"}[rnd.Intn(8)]
 						if j, err := pr.ScheduleAsync(p, prunner.ScheduleOpts{Variables: map[string]interface{}{"c": c}}); err == nil {
 							mine = append(mine, j.ID)
 							ids.Store(j.ID, true)
@@ -332,6 +356,9 @@ func TestConcurrentClients(t *testing.T) {
 								}
 							}
 							fact(factKey{Prop: "C11", What: "accepted-vs-shutdown", P: p, A: after, B: begun})
+							if p == "d" {
+								acceptSeq.Store(j.ID, ls[0])
+							}
 							if p == "a" {
 								jv, _ := strconv.Atoi(j.Env["V"])
 								fact(factKey{Prop: "C16", What: "job-built-from-installed-definitions", P: p, A: jv, B: ls[1]})
@@ -433,9 +460,23 @@ func TestConcurrentClients(t *testing.T) {
 			scancel()
 		}
 		nonTerminal := 0
+		type started struct {
+			seq   int
+			start time.Time
+		}
+		var dJobs []started
+		early := 0
 		pr.IterateJobs(func(j *prunner.PipelineJob) {
 			if !j.Completed && !j.Canceled {
 				nonTerminal++
+			}
+			if j.Pipeline == "d" && j.Start != nil {
+				if s, ok := acceptSeq.Load(j.ID); ok {
+					dJobs = append(dJobs, started{s.(int), *j.Start})
+				}
+				if j.Start.Sub(j.Created) < delayD {
+					early++
+				}
 			}
 			if os.Getenv("VERIF_DEBUG") != "" && j.Pipeline == "f" {
 				sts := ""
@@ -458,6 +499,17 @@ func TestConcurrentClients(t *testing.T) {
 			}
 		})
 		fact(factKey{Prop: "C11", What: "non-terminal-jobs-after-shutdown-returned", A: nonTerminal})
+		// the delayed pipeline has one slot, so every one of its jobs waits: they start in the order of their accepting
+		// critical sections (a: pairs that started in the other order), none earlier than its delay (a: how many did)
+		sort.Slice(dJobs, func(x, y int) bool { return dJobs[x].seq < dJobs[y].seq })
+		inversions := 0
+		for i := 1; i < len(dJobs); i++ {
+			if dJobs[i].start.Before(dJobs[i-1].start) {
+				inversions++
+			}
+		}
+		fact(factKey{Prop: "C06", What: "started-out-of-acceptance-order", P: "d", A: inversions})
+		fact(factKey{Prop: "C07", What: "started-before-its-delay", P: "d", A: early})
 		cancelCtx()
 	}
 	f, err := os.Create(outLock)
